@@ -387,6 +387,12 @@ VForward(g, L) ==
        V(\A o \in lost : o.kind \notin {"pdr", "far"}, "C02:a Create / Update PDR or FAR IE of an accepted request was not handed to the data plane"),
        V(\A o \in lost : o.kind \notin {"qer", "urr", "bar"}, "C03:a Create / Update QER, URR or BAR IE of an accepted request was not handed to the data plane") }
 
+Marked(t, f) == IF BitSet(t, f) THEN t ELSE t + f
+\* C19 ("a flag seen by the control plane is the flag the other side set"): the packet-count flags of the Volume Measurement
+\* follow the MNOP bit of the Measurement Information the SMF sent for that URR, and no other bit
+VFlagsOf(ems, urrs, sd) ==
+  V(\A i \in DOMAIN ems : \A x \in UrrOf(urrs, sd, ems[i].urr) : x.volum => ems[i].vf = (IF x.mnop THEN 63 ELSE 7),
+    "C19:volume-measurement flags of a usage report differ from the measurement information (MNOP) set for the URR")
 \* ------------------------------------------------------------------ C10 / C11 / C12: usage reports in responses and report requests
 VUsageRsp(g, L) ==   \* Modification / Deletion response of a live session
   LET e   == L.e
@@ -410,6 +416,11 @@ VUsageRsp(g, L) ==   \* Modification / Deletion response of a live session
   IN UNION {
        V(Delivered(ems, prod, urr1, sd), "C10:usage reports in the response differ from what the data plane returned"),
        V(walk.unknown = {}, "C10:usage report for a URR the session does not have"),
+       VFlagsOf(ems, urr1, sd),
+       \* the cause the data plane attached to a measurement stays; the UPF adds its mark (termination / immediate)
+       V(\A i \in DOMAIN ems : \A j \in DOMAIN prod : prod[j].vals.st = ems[i].vals.st =>
+            ems[i].trig \in {Marked(prod[j].trig, TRIG_TERMR), Marked(prod[j].trig, TRIG_IMMER)},
+         "C10:trigger of a usage report in the response differs from the cause the data plane reported plus the UPF's mark"),
        V(walk.bad = {}, "C11:UR-SEQN out of sequence"),
        IF ~c12on THEN {} ELSE UNION {
          V({r.urr : r \in Rng(termr)} = need /\ Len(termr) = Cardinality(need),
@@ -446,6 +457,7 @@ VReport(g, L) ==
          V(\A i \in DOMAIN ems : \E j \in DOMAIN known : known[j].vals.st = ems[i].vals.st /\ known[j].trig = ems[i].trig,
            "C10:usage report trigger differs from the cause reported"),
          V(walk.bad = {}, "C11:UR-SEQN out of sequence"),
+         VFlagsOf(ems, g.urr, sd),
          V(Len(ds) = Len(nocp) /\ \A i \in DOMAIN ds : ds[i].dldr = <<nocp[i].pdr>> /\ ds[i].rpts = <<>>,
            "C13:downlink data report differs from the notifications that asked for one"),
          V(\A o \in Rng(Srrs(L)) : o.seq < SeqSpace /\ o.seq \notin busy, "C09:sequence number of a report request equals an outstanding one"),
